@@ -142,6 +142,11 @@ func (c *c02Ctx) intExpr(e ast.Expr) string {
 			return "(Int.tdiv " + c.intExpr(x.X) + " " + c.intExpr(x.Y) + ")"
 		case token.REM:
 			return "(Int.tmod " + c.intExpr(x.X) + " " + c.intExpr(x.Y) + ")"
+		case token.SHR:
+			// x >> k with a constant k: arithmetic shift (floor division by 2^k)
+			if v, ok := c.knownConst(x.Y); ok && v.Kind() == constant.Int {
+				return "(Int.shiftRight " + c.intExpr(x.X) + " " + v.ExactString() + ")"
+			}
 		}
 	case *ast.CallExpr:
 		fn := c02CallName(c.s, x)
@@ -986,6 +991,59 @@ func init() {
 		e.c02BodyFn(s, "core/mathx/range.go", "AtLeast", "atLeastFn")
 		e.c02BodyFn(s, "core/mathx/range.go", "Between", "betweenFn")
 		e.c02BodyFn(s, "core/stat/usage.go", "CpuUsage", "cpuUsageFn")
+		// ---- round 5c: where the services build their shedders
+		const eng = "rest/engine.go"
+		e.constDef(s, eng, "topCpuUsage", "topCpuUsage")
+		e.c02Expr(s, eng, "newEngine", "engineSheddingIf", "BoolInt", pickIf(0))
+		e.c02Expr(s, eng, "newEngine", "engineThreshold", "Int", pickCallArg("load.WithCpuThreshold", 0, 0))
+		e.c02Expr(s, eng, "newEngine", "enginePriorityThreshold", "Int", pickCallArg("load.WithCpuThreshold", 1, 0))
+		e.c02Text(s, eng, "newEngine", "engineShedderBuilt", pickAssign("svr.shedder", 0))
+		e.c02Text(s, eng, "newEngine", "enginePriorityBuilt", pickAssign("svr.priorityShedder", 0))
+		e.c02BodyFn(s, eng, "engine.getShedder", "engineGetShedderFn")
+		e.c02Text(s, eng, "engine.buildChainWithNativeMiddlewares", "routeShedderArg", pickCallArg("handler.SheddingHandler", 0, 0))
+		if fd := s.findFunc(eng, "engine.buildChainWithNativeMiddlewares"); fd != nil {
+			guard := "MISSING"
+			ast.Inspect(fd.Body, func(n ast.Node) bool {
+				if ifs, ok := n.(*ast.IfStmt); ok && strings.Contains(s.src(ifs.Body), "handler.SheddingHandler") {
+					guard = s.src(ifs.Cond)
+				}
+				return true
+			})
+			e.printf("/-- the condition under which a route's chain gets the shedding middleware -/\ndef routeSheddingGuard : String := %s\n\n", leanString(guard))
+		} else {
+			e.errors = append(e.errors, "engine.buildChainWithNativeMiddlewares not found")
+			e.printf("def routeSheddingGuard : String := \"MISSING\"\n\n")
+		}
+		const zs = "zrpc/server.go"
+		if fd := s.findFunc(zs, "setupUnaryInterceptors"); fd != nil {
+			guard, built, passed := "MISSING", "MISSING", "MISSING"
+			ast.Inspect(fd.Body, func(n ast.Node) bool {
+				if ifs, ok := n.(*ast.IfStmt); ok && strings.Contains(s.src(ifs.Body), "UnarySheddingInterceptor") {
+					guard = s.src(ifs.Cond)
+					for _, st := range c02StmtCalls(s, ifs.Body.List) {
+						_ = st
+					}
+					ast.Inspect(ifs.Body, func(m ast.Node) bool {
+						if call, ok := m.(*ast.CallExpr); ok {
+							switch s.src(call.Fun) {
+							case "load.NewAdaptiveShedder":
+								built = strings.Join(strings.Fields(s.src(call)), " ")
+							case "serverinterceptors.UnarySheddingInterceptor":
+								if len(call.Args) > 0 {
+									passed = s.src(call.Args[0])
+								}
+							}
+						}
+						return true
+					})
+				}
+				return true
+			})
+			e.stringList("rpcServerShedderBuilt", "zrpc/server.go setupUnaryInterceptors: guard, constructor call, first argument of UnarySheddingInterceptor", []string{guard, built, passed})
+		} else {
+			e.errors = append(e.errors, "setupUnaryInterceptors not found in zrpc/server.go")
+			e.stringList("rpcServerShedderBuilt", "MISSING", []string{"MISSING"})
+		}
 		// the two rolling windows of NewAdaptiveShedder as typed argument lists
 		e.c02CallArgs(s, f, "NewAdaptiveShedder", "newPassCounterCall", pickField("passCounter"))
 		e.c02CallArgs(s, f, "NewAdaptiveShedder", "newRtCounterCall", pickField("rtCounter"))
